@@ -1,12 +1,143 @@
 (* TokenTrees.v — the parser rebuilds whole item trees from the tokens of their
    printed form (C04, token level): lists, list variables, value items of the
-   integer / unsigned / binary / boolean formats, ASCII items and ASCII variables. *)
-From Secs Require Import Ast FloatProofs Fill Msg WireSpec WireLemmas WireValues HeaderProofs WireEnc WireDec MsgProofs AstProofs FillProofs FillCompose.
+   integer / unsigned / binary / boolean / float formats, ASCII items and ASCII variables. *)
+From Secs Require Import Ast FloatProofs FloatRound Fill Msg WireSpec WireLemmas WireValues HeaderProofs WireEnc WireDec MsgProofs AstProofs FillProofs FillCompose.
 From Secs Require Import Utf8 Lexer Parser SmlNumbers SmlProofs TokenProofs AsciiTokens.
 Open Scope Z_scope.
 
+(* ---------- ellipsis variables: numbering and the parser's counter ---------- *)
+
+Definition ell_name (e : Z) : bytes := [x2e; x2e; x2e] ++ [x5b] ++ fmt_int e ++ [x5d].
+Definition ells (ns : list bytes) : list bytes := filter is_ellipsis ns.
+Definition named (ns : list bytes) : list bytes := filter (fun n => negb (is_ellipsis n)) ns.
+Fixpoint zseq (e : Z) (n : nat) : list Z := match n with O => [] | S k => e :: zseq (e + 1) k end.
+
+(* the ellipsis names among [ns] are "...[e]", "...[e+1]", ... in this order:
+   what the parser calls them when its counter stands at [e] *)
+Definition canon (e : Z) (ns : list bytes) : Prop := ells ns = map ell_name (zseq e (length (ells ns))).
+
+Lemma ells_app a b : ells (a ++ b) = ells a ++ ells b. Proof. apply filter_app. Qed.
+Lemma named_app a b : named (a ++ b) = named a ++ named b. Proof. apply filter_app. Qed.
+
+Lemma zseq_app e a b : zseq e (a + b) = zseq e a ++ zseq (e + Z.of_nat a) b.
+Proof.
+  revert e. induction a as [|a IH]; intro e; [cbn; rewrite Z.add_0_r; reflexivity|].
+  cbn [Nat.add zseq app]. rewrite IH. f_equal. f_equal. f_equal. lia.
+Qed.
+
+Lemma zseq_length e n : length (zseq e n) = n.
+Proof. revert e. induction n as [|n IH]; intro e; [reflexivity|]. cbn. rewrite IH. reflexivity. Qed.
+
+Lemma app_eq_len {X} (a a' b b' : list X) : length a = length a' -> a ++ b = a' ++ b' -> a = a' /\ b = b'.
+Proof.
+  revert a'. induction a as [|x a IH]; intros [|x' a'] Hl H; try discriminate; [split; [reflexivity|exact H]|].
+  cbn in Hl, H. inversion H; subst. destruct (IH a' ltac:(lia) H2) as [-> ->]. split; reflexivity.
+Qed.
+
+Lemma canon_app e a b : canon e (a ++ b) -> canon e a /\ canon (e + Z.of_nat (length (ells a))) b.
+Proof.
+  unfold canon. rewrite ells_app, app_length, zseq_app, map_app. intro H.
+  apply app_eq_len in H; [exact H|]. rewrite map_length, zseq_length. reflexivity.
+Qed.
+
+Lemma valid_not_ellipsis n : is_valid_var_name n = true -> is_ellipsis n = false.
+Proof.
+  destruct n as [|a r]; [reflexivity|]. cbn [is_valid_var_name]. intro H. apply andb_true_iff in H as [Ha _].
+  destruct r as [|b [|c r]]; try reflexivity. cbn [is_ellipsis].
+  destruct (byte_eqb a x2e) eqn:E; [|reflexivity]. apply byte_eqb_spec in E. subst a. discriminate.
+Qed.
+
+Lemma valid_names_plain ns : forallb is_valid_var_name ns = true -> named ns = ns /\ ells ns = [].
+Proof.
+  induction ns as [|n ns IH]; [split; reflexivity|]. cbn [forallb]. intro H. apply andb_true_iff in H as [Hn Hr].
+  destruct (IH Hr) as [E1 E2]. unfold named, ells in *. cbn [filter]. rewrite (valid_not_ellipsis n Hn). cbn [negb].
+  rewrite E1, E2. split; reflexivity.
+Qed.
+
+(* only an ellipsis in a list moves the parser's counter *)
+Lemma ecount_err st t k : ecount (err st t k) = ecount st. Proof. reflexivity. Qed.
+Lemma ecount_warn st t k : ecount (warn st t k) = ecount st. Proof. reflexivity. Qed.
+Lemma ecount_advance st : ecount (advance st) = ecount st. Proof. reflexivity. Qed.
+Lemma ecount_add_name st n : ecount (add_name st n) = ecount st. Proof. reflexivity. Qed.
+Lemma ecount_crash st : ecount (crash st) = ecount st. Proof. reflexivity. Qed.
+#[export] Hint Rewrite ecount_err ecount_warn ecount_advance ecount_add_name ecount_crash : ecount_db.
+
+Lemma take_values_ecount st vs st' : take_values st = (vs, st') -> ecount st' = ecount st.
+Proof. unfold take_values. destruct (value_tokens (toks st)). intro H; inversion H; reflexivity. Qed.
+
+Lemma value_arg_ecount floats nk st t g st1 : value_arg floats nk st t = Some (g, st1) -> ecount st1 = ecount st.
+Proof.
+  unfold value_arg. intro E.
+  repeat match type of E with
+         | (let '(_, _) := ?x in _) = _ => destruct x eqn:?
+         | (if ?c then _ else _) = _ => destruct c eqn:?
+         | match ?x with _ => _ end = _ => destruct x eqn:?
+         end; try discriminate; inversion E; subst;
+  repeat match goal with |- context [match ?x with _ => _ end] => destruct x end; reflexivity.
+Qed.
+
+Lemma value_args_ecount floats nk ts : forall st o st', value_args floats nk st ts = (o, st') -> ecount st' = ecount st.
+Proof.
+  induction ts as [|t ts IH]; intros st o st' H; cbn [value_args] in H; [inversion H; reflexivity|].
+  destruct (value_arg floats nk st t) as [[g st1]|] eqn:E.
+  - destruct (value_args floats nk st1 ts) as [o2 st2] eqn:E2. inversion H; subst. rewrite (IH _ _ _ E2).
+    eapply value_arg_ecount; exact E.
+  - inversion H; subst. destruct (t_typ t); reflexivity.
+Qed.
+
+Lemma parse_numeric_ecount floats nk st r st' : parse_numeric floats nk st = (r, st') -> ecount st' = ecount st.
+Proof.
+  unfold parse_numeric. destruct (take_values st) as [vs st0] eqn:E0. destruct (value_args floats nk st0 vs) as [o st1] eqn:E1.
+  intro H. apply take_values_ecount in E0. apply value_args_ecount in E1.
+  destruct o; [destruct (build nk l)|]; inversion H; subst; congruence.
+Qed.
+
+Lemma ascii_literal_ecount ts : forall st n acc mn mx r st', ascii_literal st ts n acc mn mx = (r, st') -> ecount st' = ecount st.
+Proof.
+  induction ts as [|t ts IH]; intros st n acc mn mx r st' H; cbn [ascii_literal] in H; [inversion H; reflexivity|].
+  destruct (t_typ t);
+    repeat match type of H with
+           | (let '(_, _) := ?x in _) = _ => destruct x eqn:?
+           | (if ?c then _ else _) = _ => destruct c eqn:?
+           end;
+    try (apply IH in H; rewrite H; repeat match goal with |- context [match ?x with _ => _ end] => destruct x end; reflexivity);
+    try (inversion H; subst; reflexivity).
+Qed.
+
+(* an item that is not a list leaves the counter alone *)
+Lemma parse_item_body_ecount floats rec_list st o st' :
+  parse_item_body floats rec_list st = (o, st') ->
+  bytes_eqb (t_val (peek (advance st))) (B"L"%string) = false -> ecount st' = ecount st.
+Proof.
+  intros H HL. unfold parse_item_body in H.
+  repeat match type of H with
+         | (let '(_, _) := ?x in _) = _ => destruct x eqn:?
+         | (if ?c then _ else _) = _ => destruct c eqn:?
+         | match ?x with _ => _ end = _ => destruct x eqn:?
+         end; inversion H; subst; clear H;
+  repeat match goal with
+         | H : (let '(_, _) := ?x in _) = _ |- _ => destruct x eqn:?
+         | H : (if ?c then _ else _) = (_, _, _) |- _ => destruct c eqn:?
+         | H : (if ?c then _ else _) = (_, _, _, _) |- _ => destruct c eqn:?
+         | H : match ?x with _ => _ end = (_, _, _) |- _ => destruct x eqn:?
+         end;
+  repeat match goal with
+         | H : (_, _, _, _) = (_, _, _, _) |- _ => inversion H; subst; clear H
+         | H : (_, _, _) = (_, _, _) |- _ => inversion H; subst; clear H
+         end;
+  try congruence;
+  repeat match goal with
+         | H : parse_numeric _ _ _ = _ |- _ => apply parse_numeric_ecount in H
+         | H : ascii_literal _ _ _ _ _ _ = _ |- _ => apply ascii_literal_ecount in H
+         | H : take_values _ = _ |- _ => apply take_values_ecount in H
+         end;
+  repeat match goal with |- context [if ?c then _ else _] => destruct c end;
+  autorewrite with ecount_db in *; congruence.
+Qed.
+
 Section Trees.
 Variable floats : float_oracle.
+Variable fl : nat -> Z -> bytes.
 
 (* ---------- whole item trees ---------- *)
 
@@ -20,14 +151,15 @@ Fixpoint item_tokens (t : item) : list token :=
     [mk TLAB [x3c] 0; mk TItemType (B"L"%string) 0] ++
     (if existsb is_list_var xs then []
      else [mk TItemSize ([x5b] ++ fmt_unsigned 10 (Z.of_nat (length xs)) ++ [x5d]) 0]) ++
-    flat_map (fun c => match c with IVar n => [mk TVariable n 0] | _ => item_tokens c end) xs ++
+    flat_map (fun c => match c with IVar n => [if is_ellipsis n then mk TEllipsis [x2e; x2e; x2e] 0 else mk TVariable n 0] | _ => item_tokens c end) xs ++
     [mk TRAB [x3e] 0]
-  | ILeaf k w ys => leaf_tokens k w ys
+  | ILeaf k w ys => leaf_tokens fl k w ys
   | IAscii v => ascii_tokens v
   | IAsciiVar n mn mx => ascii_var_tokens n mn mx
   | _ => []
   end.
-Definition child_tokens (c : item) : list token := match c with IVar n => [mk TVariable n 0] | _ => item_tokens c end.
+Definition child_tokens (c : item) : list token :=
+  match c with IVar n => [if is_ellipsis n then mk TEllipsis [x2e; x2e; x2e] 0 else mk TVariable n 0] | _ => item_tokens c end.
 
 (* item trees made of lists, plain list variables, integer / unsigned / binary /
    boolean value items, ASCII items and ASCII variables, every node as its
@@ -40,13 +172,13 @@ Fixpoint printable (t : item) : Prop :=
        match cs with
        | [] => True
        | c :: r => match c with
-                   | IVar n => is_ellipsis n = false
+                   | IVar n => True
                    | IList _ | ILeaf _ _ _ | IAscii _ | IAsciiVar _ _ _ => printable c
                    | _ => False
                    end /\ go r
        end) xs
   | ILeaf k w ys =>
-    k <> KFloat /\ fmt_ok k w /\ Forall (slot_built k w) ys /\ size_ok (size_typ k w) (length ys) = true /\
+    fmt_ok k w /\ Forall (slot_built k w) ys /\ size_ok (size_typ k w) (length ys) = true /\
     width_okb k w = true /\ forallb (val_okb k w) ys = true /\ names_ok ys = true
   | IAscii v => new_ascii v = Some (IAscii v)
   | IAsciiVar n mn mx => new_ascii_var n mn mx = Some (IAsciiVar n mn mx) /\ mn < two63 /\ mx < two63
@@ -55,10 +187,21 @@ Fixpoint printable (t : item) : Prop :=
 
 Definition child_ok (c : item) : Prop :=
   match c with
-  | IVar n => is_ellipsis n = false
+  | IVar n => True
   | IList _ | ILeaf _ _ _ | IAscii _ | IAsciiVar _ _ _ => printable c
   | _ => False
   end.
+
+(* the float oracles are consistent on every float value of the tree (see [slot_scans]) *)
+Fixpoint scans (t : item) : Prop :=
+  match t with
+  | IList xs => (fix go (cs : list item) : Prop := match cs with [] => True | c :: r => scans c /\ go r end) xs
+  | ILeaf k w ys => Forall (slot_scans floats fl k w) ys
+  | _ => True
+  end.
+
+Lemma scans_children xs : scans (IList xs) -> Forall scans xs.
+Proof. cbn [scans]. induction xs as [|c r IH]; intro H; [constructor|]. destruct H as [Hc Hr]. constructor; [exact Hc|apply IH; exact Hr]. Qed.
 
 Lemma printable_children xs : printable (IList xs) -> Forall child_ok xs.
 Proof.
@@ -93,49 +236,84 @@ Proof.
 Qed.
 
 Definition item_goal (f : nat) : Prop := forall t st rest,
-  printable t -> (length (item_tokens t) <= f)%nat ->
-  (forall n, In n (vars t) -> known_name st n = false) ->
+  printable t -> scans t -> (length (item_tokens t) <= f)%nat ->
+  (forall n, In n (vars t) -> known_name st n = false) -> canon (ecount st) (vars t) ->
   toks st = item_tokens t ++ rest ->
   exists st', parse_item floats f st = (Some t, st') /\ toks st' = rest /\ errs st' = errs st /\ warns st' = warns st /\
-              msgs st' = msgs st /\ names_char st st' (vars t).
+              msgs st' = msgs st /\ names_char st st' (named (vars t)) /\
+              ecount st' = ecount st + Z.of_nat (length (ells (vars t))).
+
+Definition head_plain (cs : list item) : Prop := match cs with IVar n :: _ => is_ellipsis n = false | _ => True end.
 
 Definition list_goal (f : nat) : Prop := forall cs st acc count rest,
-  Forall child_ok cs -> nodupb (flat_map cvars cs) = true ->
+  Forall child_ok cs -> Forall scans cs -> nodupb (flat_map cvars cs) = true ->
   (length (flat_map child_tokens cs) + 1 <= f)%nat ->
-  (forall n, In n (flat_map cvars cs) -> known_name st n = false) ->
+  (forall n, In n (flat_map cvars cs) -> known_name st n = false) -> canon (ecount st) (flat_map cvars cs) ->
+  0 <= count -> (count = 0 -> head_plain cs) ->
   toks st = flat_map child_tokens cs ++ mk TRAB [x3e] 0 :: rest ->
   exists st', parse_list floats f st acc count =
                 (match new_list (acc ++ map gv cs) with Some l => IOk l | None => IPanic end, st') /\
               toks st' = mk TRAB [x3e] 0 :: rest /\ errs st' = errs st /\ warns st' = warns st /\
-              msgs st' = msgs st /\ names_char st st' (flat_map cvars cs).
+              msgs st' = msgs st /\ names_char st st' (named (flat_map cvars cs)) /\
+              ecount st' = ecount st + Z.of_nat (length (ells (flat_map cvars cs))).
 
 Lemma list_step f : item_goal f -> list_goal f -> list_goal (S f).
 Proof.
-  intros HI HL cs st acc count rest Hok Hnd Hlen Hfresh Ht.
+  intros HI HL cs st acc count rest Hok Hscs Hnd Hlen Hfresh Hcan Hc0 Hhead Ht.
   change (parse_list floats (S f)) with (parse_list_body (parse_item floats f) (parse_list floats f)).
   destruct cs as [|c cs].
   - (* '>' *)
     cbn [flat_map app] in Ht. unfold parse_list_body, peek. rewrite Ht. cbn [t_typ mk]. rewrite app_nil_r.
-    exists st. repeat split; try assumption. apply names_char_refl.
-  - inversion Hok as [|? ? Hc Hcs]; subst. cbn [flat_map] in Ht, Hnd, Hlen, Hfresh. rewrite app_length in Hlen.
+    exists st. repeat split; try assumption; [apply names_char_refl|cbn; lia].
+  - inversion Hok as [|? ? Hc Hcs]; subst. inversion Hscs as [|? ? Hsc Hscr]; subst. cbn [flat_map] in Ht, Hnd, Hlen, Hfresh, Hcan. rewrite app_length in Hlen.
     destruct (nodupb_app _ _ Hnd) as [Hnd' Hdisj].
+    destruct (canon_app _ _ _ Hcan) as [Hcan1 Hcan2].
     destruct (match c with IVar n => true | _ => false end) eqn:Eisvar.
     + (* a list variable *)
       destruct c as [xs|n|k w ys|v|n mn mx|]; try discriminate Eisvar. cbn [child_ok] in Hc.
-      cbn [child_tokens app] in Ht, Hlen. unfold parse_list_body, peek. rewrite Ht. cbn [t_typ t_val mk].
-      unfold advance at 1 2 3. cbn [toks]. rewrite Ht. cbn [tl].
+      cbn [child_tokens app] in Ht, Hlen. cbn [cvars] in Hcan1, Hcan2.
       set (st0 := {| toks := flat_map child_tokens cs ++ mk TRAB [x3e] 0 :: rest; names := names st; ecount := ecount st;
                      errs := errs st; warns := warns st; msgs := msgs st; crashed := crashed st |}).
-      assert (Hk : known_name st0 n = false) by (apply (Hfresh n); left; reflexivity).
-      rewrite Hk.
-      destruct (HL cs (add_name st0 n) (acc ++ [GStr n]) (count + 1) rest Hcs Hnd' ltac:(cbn [length] in Hlen; lia)) as [st' [E2 [T2 [E2e [E2w [E2m N2]]]]]].
-      { intros m Hm. subst st0. unfold known_name, add_name. cbn [names existsb].
-        pose proof (Hfresh m (or_intror Hm)) as Hf. unfold known_name in Hf. rewrite Hf, orb_false_r.
-        pose proof (Hdisj m Hm) as Hd. cbn [cvars existsb] in Hd. rewrite orb_false_r in Hd. exact Hd. }
-      { reflexivity. }
-      rewrite E2. rewrite <- app_assoc. cbn [app map gv]. exists st'. repeat split; try assumption.
-      intro m. rewrite (N2 m). subst st0. unfold known_name, add_name. cbn [names existsb flat_map cvars app].
-      destruct (bytes_eqb m n); destruct (existsb (bytes_eqb m) (names st)); destruct (existsb (bytes_eqb m) (flat_map cvars cs)); reflexivity.
+      assert (Eadv : advance st = st0) by (unfold advance, st0; rewrite Ht; reflexivity).
+      destruct (is_ellipsis n) eqn:Eell.
+      * (* an ellipsis: the parser names it after its counter *)
+        unfold parse_list_body, peek. rewrite Ht. cbn [t_typ t_val mk]. rewrite Eadv.
+        assert (Hcnt : (count =? 0) = false).
+        { apply Z.eqb_neq. intro E0. specialize (Hhead E0). cbn [head_plain] in Hhead. congruence. }
+        rewrite Hcnt.
+        assert (En : n = ell_name (ecount st)).
+        { unfold canon, ells in Hcan1. cbn [filter] in Hcan1. rewrite Eell in Hcan1. cbn [length zseq map] in Hcan1. inversion Hcan1. reflexivity. }
+        assert (Ename : [x2e; x2e; x2e] ++ [x5b] ++ fmt_int (ecount st0) ++ [x5d] = n) by (rewrite En; reflexivity).
+        rewrite Ename. change (bytes_eqb [x2e; x2e; x2e] [x2e; x2e; x2e]) with true. cbn [orb].
+        assert (Hl1 : Z.of_nat (length (ells [n])) = 1) by (unfold ells; cbn [filter]; rewrite Eell; reflexivity).
+        destruct (HL cs (with_ecount st0 (ecount st0 + 1)) (acc ++ [GStr n]) (count + 1) rest Hcs Hscr Hnd' ltac:(cbn [length] in Hlen; lia))
+          as [st' [E2 [T2 [E2e [E2w [E2m [N2 C2]]]]]]].
+        { intros m Hm. exact (Hfresh m (or_intror Hm)). }
+        { cbn [with_ecount ecount st0]. rewrite Hl1 in Hcan2. exact Hcan2. }
+        { lia. }
+        { intro E0. lia. }
+        { reflexivity. }
+        rewrite E2. rewrite <- app_assoc. cbn [app map gv]. exists st'. repeat split; try assumption.
+        -- intro m. rewrite (N2 m). cbn [flat_map]. rewrite named_app. unfold named at 2. cbn [cvars filter]. rewrite Eell. cbn [negb app]. reflexivity.
+        -- rewrite C2. cbn [with_ecount ecount st0 flat_map]. rewrite ells_app, app_length, Nat2Z.inj_add. cbn [cvars]. rewrite Hl1. lia.
+      * (* a named variable *)
+        unfold parse_list_body, peek. rewrite Ht. cbn [t_typ t_val mk]. rewrite Eadv.
+        assert (Hk : known_name st0 n = false) by (apply (Hfresh n); left; reflexivity).
+        rewrite Hk.
+        assert (Hl0 : ells [n] = []) by (unfold ells; cbn [filter]; rewrite Eell; reflexivity).
+        destruct (HL cs (add_name st0 n) (acc ++ [GStr n]) (count + 1) rest Hcs Hscr Hnd' ltac:(cbn [length] in Hlen; lia)) as [st' [E2 [T2 [E2e [E2w [E2m [N2 C2]]]]]]].
+        { intros m Hm. subst st0. unfold known_name, add_name. cbn [names existsb].
+          pose proof (Hfresh m (or_intror Hm)) as Hf. unfold known_name in Hf. rewrite Hf, orb_false_r.
+          pose proof (Hdisj m Hm) as Hd. cbn [cvars existsb] in Hd. rewrite orb_false_r in Hd. exact Hd. }
+        { cbn [add_name ecount st0]. rewrite Hl0 in Hcan2. cbn [length] in Hcan2. rewrite Z.add_0_r in Hcan2. exact Hcan2. }
+        { lia. }
+        { intro E0. lia. }
+        { reflexivity. }
+        rewrite E2. rewrite <- app_assoc. cbn [app map gv]. exists st'. repeat split; try assumption.
+        -- intro m. rewrite (N2 m). subst st0. unfold known_name, add_name. cbn [flat_map]. rewrite named_app. unfold named at 2. cbn [names existsb cvars filter].
+           rewrite Eell. cbn [negb app existsb].
+           destruct (bytes_eqb m n); destruct (existsb (bytes_eqb m) (names st)); destruct (existsb (bytes_eqb m) (named (flat_map cvars cs))); reflexivity.
+        -- rewrite C2. cbn [add_name ecount st0 flat_map]. rewrite ells_app, app_length. cbn [cvars]. rewrite Hl0. cbn [length]. lia.
     + (* an item: a nested list, a value item, an ASCII item or variable *)
       assert (Hnv : forall n, c <> IVar n) by (intros n E; subst c; discriminate Eisvar).
       assert (Hp : printable c) by (destruct c; cbn [child_ok] in Hc; try contradiction; try discriminate Eisvar; exact Hc).
@@ -143,16 +321,22 @@ Proof.
       assert (Egv : gv c = GItem c) by (destruct c; try reflexivity; discriminate Eisvar).
       assert (Ecv : cvars c = vars c) by (destruct c; try reflexivity; try discriminate Eisvar; cbn [child_ok] in Hc; contradiction).
       rewrite Ect in Ht, Hlen. cbn [flat_map]. rewrite Ecv in *. rewrite <- app_assoc in Ht.
-      destruct (HI c st (flat_map child_tokens cs ++ mk TRAB [x3e] 0 :: rest) Hp ltac:(lia)
-                  ltac:(intros n Hn; apply Hfresh; apply in_or_app; left; exact Hn) Ht) as [st1 [E1 [T1 [E1e [E1w [E1m N1]]]]]].
+      destruct (HI c st (flat_map child_tokens cs ++ mk TRAB [x3e] 0 :: rest) Hp Hsc ltac:(lia)
+                  ltac:(intros n Hn; apply Hfresh; apply in_or_app; left; exact Hn) Hcan1 Ht) as [st1 [E1 [T1 [E1e [E1w [E1m [N1 C1]]]]]]].
       destruct (child_first_token c Hc Hnv) as [tl0 Etl].
       unfold parse_list_body, peek. rewrite Ht, Etl. cbn [app t_typ mk]. rewrite E1.
       assert (Hlen' : (length (flat_map child_tokens cs) + 1 <= f)%nat) by (rewrite Etl in Hlen; cbn [length] in Hlen; lia).
-      destruct (HL cs st1 (acc ++ [GItem c]) (count + 1) rest Hcs Hnd' Hlen') as [st' [E2 [T2 [E2e [E2w [E2m N2]]]]]].
-      { intros n Hn. rewrite (N1 n), (Hfresh n) by (apply in_or_app; right; exact Hn). cbn [orb]. apply Hdisj. exact Hn. }
+      destruct (HL cs st1 (acc ++ [GItem c]) (count + 1) rest Hcs Hscr Hnd' Hlen') as [st' [E2 [T2 [E2e [E2w [E2m [N2 C2]]]]]]].
+      { intros n Hn. rewrite (N1 n), (Hfresh n) by (apply in_or_app; right; exact Hn). cbn [orb].
+        pose proof (Hdisj n Hn) as Hd. clear -Hd. induction (vars c) as [|a l IH]; [reflexivity|]. cbn [existsb] in Hd. apply orb_false_iff in Hd as [Ha Hl].
+        unfold named. cbn [filter]. destruct (negb (is_ellipsis a)); [cbn [existsb]; rewrite Ha; exact (IH Hl)|exact (IH Hl)]. }
+      { rewrite C1. exact Hcan2. }
+      { lia. }
+      { intro E0. lia. }
       { exact T1. }
       rewrite E2. rewrite <- app_assoc. cbn [app map]. rewrite Egv. exists st'. repeat split; try congruence.
-      apply (names_char_trans st st1 st'); assumption.
+      * rewrite named_app. apply (names_char_trans st st1 st'); assumption.
+      * rewrite C2, C1, ells_app, app_length, Nat2Z.inj_add. lia.
 Qed.
 
 Lemma new_list_length args xs : new_list args = Some (IList xs) -> 0 <= Z.of_nat (length args) < two63.
@@ -164,29 +348,61 @@ Proof.
 Qed.
 
 Lemma first_child_token cs rest : Forall child_ok cs -> cs <> [] ->
-  exists t tl, flat_map child_tokens cs ++ rest = t :: tl /\ (t_typ t = TVariable \/ t_typ t = TLAB).
+  exists t tl, flat_map child_tokens cs ++ rest = t :: tl /\ (t_typ t = TVariable \/ t_typ t = TLAB \/ t_typ t = TEllipsis).
 Proof.
   intros H Hne. destruct cs as [|c cs]; [congruence|]. inversion H as [|? ? Hc _]; subst.
   destruct c as [xs|n|k w ys|v|n mn mx|]; cbn [child_ok] in Hc; try contradiction;
     cbn [flat_map child_tokens item_tokens leaf_tokens ascii_tokens ascii_var_tokens app];
-    eexists; eexists; (split; [reflexivity|]); first [right; reflexivity|left; reflexivity].
+    eexists; eexists; (split; [reflexivity|]); try destruct (is_ellipsis n); cbn [t_typ mk]; first [right; left; reflexivity|left; reflexivity|right; right; reflexivity].
+Qed.
+
+Lemma new_list_head xs : new_list (map gv xs) = Some (IList xs) -> head_plain xs.
+Proof.
+  unfold new_list. destruct (negb _); [discriminate|]. destruct (map_opt list_arg (map gv xs)) as [ys|]; [|discriminate].
+  destruct (nodupb (direct_vars ys) && list_vars_ok ys && nodupb (vars (IList ys))) eqn:E; [|discriminate].
+  intro H; inversion H; subst ys. apply andb_true_iff in E as [E _]. apply andb_true_iff in E as [_ E].
+  unfold list_vars_ok in E. apply andb_true_iff in E as [_ E]. destruct xs as [|[ | n | | | | ] r]; cbn [head_plain]; try exact I.
+  apply valid_not_ellipsis. exact E.
+Qed.
+
+Lemma leaf_second_not_L st k w ys rest : fmt_ok k w -> toks st = leaf_tokens fl k w ys ++ rest ->
+  bytes_eqb (t_val (peek (advance st))) (B"L"%string) = false.
+Proof.
+  intros Hf Ht. unfold peek, advance. cbn [toks]. rewrite Ht. unfold leaf_tokens. cbn [app tl t_val mk].
+  apply (nk_of_leaf_tag k w Hf).
 Qed.
 
 Lemma item_step f : list_goal f -> item_goal (S f).
 Proof.
-  intros HL t st rest Hp Hlen Hfresh Ht.
+  intros HL t st rest Hp Hsc Hlen Hfresh Hcan Ht.
   change (parse_item floats (S f)) with (parse_item_body floats (parse_list floats f)).
   destruct t as [xs|n|k w ys|v|n mn mx|]; cbn [printable] in Hp; try contradiction.
-  2:{ destruct Hp as (Hk & Hf & Hb & Hs & Hw & Hv & Hn).
-      apply (leaf_item_parses_back floats (parse_list floats f) k w ys st rest Hk Hf Hb Hs Hw Hv Hn Hfresh Ht). }
-  2:{ apply (ascii_item_parses_back floats (parse_list floats f) v st rest Hp Ht). }
+  2:{ destruct Hp as (Hf & Hb & Hs & Hw & Hv & Hn). cbn [scans] in Hsc.
+      destruct (leaf_item_parses_back floats fl (parse_list floats f) k w ys st rest Hf Hb Hsc Hs Hw Hv Hn Hfresh Ht)
+        as [st' [E [T [Ee [Ew [Em N]]]]]].
+      assert (Hvalid : forallb is_valid_var_name (slot_vars ys) = true) by (unfold names_ok in Hn; apply andb_true_iff in Hn as [Hn _]; exact Hn).
+      destruct (valid_names_plain _ Hvalid) as [En El].
+      exists st'. cbn [vars]. rewrite En, El. repeat split; try assumption.
+      cbn [length]. rewrite Z.add_0_r. apply (parse_item_body_ecount _ _ _ _ _ E). eapply leaf_second_not_L; eassumption. }
+  2:{ destruct (ascii_item_parses_back floats (parse_list floats f) v st rest Hp Ht) as [st' [E [T [Ee [Ew [Em N]]]]]].
+      exists st'. cbn [vars named ells filter length]. repeat split; try assumption.
+      rewrite Z.add_0_r. apply (parse_item_body_ecount _ _ _ _ _ E).
+      unfold peek, advance. cbn [toks]. rewrite Ht. unfold ascii_tokens. cbn [app tl t_val mk]. reflexivity. }
   2:{ destruct Hp as (Hnew & Hmn & Hmx).
-      apply (ascii_var_parses_back floats (parse_list floats f) n mn mx st rest Hnew Hmn Hmx); [apply Hfresh; left; reflexivity|exact Ht]. }
+      destruct (ascii_var_parses_back floats (parse_list floats f) n mn mx st rest Hnew Hmn Hmx ltac:(apply Hfresh; left; reflexivity) Ht)
+        as [st' [E [T [Ee [Ew [Em N]]]]]].
+      assert (Hvalid : forallb is_valid_var_name [n] = true).
+      { unfold new_ascii_var in Hnew. cbn [forallb]. destruct (is_valid_var_name n) eqn:Ev; [reflexivity|discriminate]. }
+      destruct (valid_names_plain _ Hvalid) as [En El].
+      exists st'. cbn [vars]. rewrite En, El. repeat split; try assumption.
+      cbn [length]. rewrite Z.add_0_r. apply (parse_item_body_ecount _ _ _ _ _ E).
+      unfold peek, advance. cbn [toks]. rewrite Ht. unfold ascii_var_tokens. cbn [app tl t_val mk]. reflexivity. }
+  pose proof (new_list_head xs (proj1 Hp)) as Hhead.
   pose proof (printable_children xs Hp) as Hch. destruct Hp as [Hnew _].
-  pose proof (new_list_nodupb _ _ Hnew) as Hnd. change (vars (IList xs)) with (flat_map cvars xs) in Hnd, Hfresh |- *.
+  pose proof (new_list_nodupb _ _ Hnew) as Hnd. change (vars (IList xs)) with (flat_map cvars xs) in Hnd, Hfresh, Hcan |- *.
   pose proof (new_list_length _ _ Hnew) as Hll. rewrite map_length in Hll.
   cbn [item_tokens] in Ht, Hlen.
-  change (flat_map (fun c => match c with IVar n => [mk TVariable n 0] | _ => item_tokens c end) xs) with (flat_map child_tokens xs) in Ht, Hlen.
+  change (flat_map (fun c => match c with IVar n => [if is_ellipsis n then mk TEllipsis [x2e; x2e; x2e] 0 else mk TVariable n 0] | _ => item_tokens c end) xs) with (flat_map child_tokens xs) in Ht, Hlen.
   assert (Hcl : (length (flat_map child_tokens xs) + 1 <= f)%nat).
   { rewrite !app_length in Hlen. cbn [length] in Hlen. lia. }
   unfold parse_item_body. unfold advance, peek.
@@ -198,18 +414,18 @@ Proof.
     repeat (cbn [toks tl names ecount errs warns msgs crashed]; rewrite ?Ht).
     cbn [tl typ_is t_typ t_val mk negb andb]. rewrite E0.
     assert (Hsz : typ_is t0 TItemSize = false /\ typ_is t0 TError = false).
-    { unfold typ_is. destruct Ht0 as [-> | ->]; split; reflexivity. }
+    { unfold typ_is. destruct Ht0 as [-> | [-> | ->]]; split; reflexivity. }
     destruct Hsz as [Hs1 Hs2]. rewrite Hs1, Hs2. cbn [negb andb]. rewrite <- E0.
     change (bytes_eqb (B"L"%string) (B"L"%string)) with true. cbv iota.
     set (st3 := {| toks := flat_map child_tokens xs ++ mk TRAB [x3e] 0 :: rest; names := names st; ecount := ecount st;
                    errs := errs st; warns := warns st; msgs := msgs st; crashed := crashed st |}).
-    destruct (HL xs st3 [] 0 rest Hch Hnd Hcl Hfresh eq_refl)
-      as [st' [E [T [Ee [Ew [Em N]]]]]].
+    destruct (HL xs st3 [] 0 rest Hch (scans_children xs Hsc) Hnd Hcl Hfresh Hcan ltac:(lia) (fun _ => Hhead) eq_refl)
+      as [st' [E [T [Ee [Ew [Em [N C]]]]]]].
     rewrite E. cbn [app]. rewrite Hnew. cbv beta iota zeta. cbn [item_size_for_check size].
     assert (Hse : size_error (Z.of_nat (length xs)) 0 (-1) = false).
     { unfold size_error. cbn [Z.eqb]. destruct (Z.ltb_spec (Z.of_nat (length xs)) 0); [lia|reflexivity]. }
     rewrite Hse. destruct (0 <=? Z.of_nat (length xs)); cbn [andb]; rewrite T; cbn [typ_is t_typ mk];
-      (eexists; split; [reflexivity|]; cbn [toks errs warns]; rewrite ?T; cbn [tl]; repeat split; try assumption; exact N).
+      (eexists; split; [reflexivity|]; cbn [toks errs warns ecount]; rewrite ?T; cbn [tl]; repeat split; try assumption; try exact N; try exact C).
   - (* a list of items only carries its size *)
     rewrite <- app_assoc in Ht. cbn [app] in Ht.
     repeat (cbn [toks tl names ecount errs warns msgs crashed]; rewrite ?Ht).
@@ -219,14 +435,14 @@ Proof.
     rewrite Hps. change (bytes_eqb (B"L"%string) (B"L"%string)) with true. cbv iota.
     set (st3 := {| toks := flat_map child_tokens xs ++ mk TRAB [x3e] 0 :: rest; names := names st; ecount := ecount st;
                    errs := errs st; warns := warns st; msgs := msgs st; crashed := crashed st |}).
-    destruct (HL xs st3 [] 0 rest Hch Hnd Hcl Hfresh eq_refl)
-      as [st' [E [T [Ee [Ew [Em N]]]]]].
+    destruct (HL xs st3 [] 0 rest Hch (scans_children xs Hsc) Hnd Hcl Hfresh Hcan ltac:(lia) (fun _ => Hhead) eq_refl)
+      as [st' [E [T [Ee [Ew [Em [N C]]]]]]].
     rewrite E. cbn [app]. rewrite Hnew. cbv beta iota zeta. cbn [item_size_for_check size].
     assert (Hse : size_error (Z.of_nat (length xs)) (Z.of_nat (length xs)) (Z.of_nat (length xs)) = false).
     { unfold size_error. destruct (Z.eqb_spec (Z.of_nat (length xs)) (-1)); [lia|].
       destruct (Z.leb_spec (Z.of_nat (length xs)) (Z.of_nat (length xs))); [reflexivity|lia]. }
     rewrite Hse. destruct (0 <=? Z.of_nat (length xs)); cbn [andb]; rewrite T; cbn [typ_is t_typ mk];
-      (eexists; split; [reflexivity|]; cbn [toks errs warns]; rewrite ?T; cbn [tl]; repeat split; try assumption; exact N).
+      (eexists; split; [reflexivity|]; cbn [toks errs warns ecount]; rewrite ?T; cbn [tl]; repeat split; try assumption; try exact N; try exact C).
 Qed.
 
 Lemma printable_tokens_nonempty t : printable t -> (1 <= length (item_tokens t))%nat.
@@ -236,23 +452,30 @@ Lemma goals : forall f, item_goal f /\ list_goal f.
 Proof.
   induction f as [|f [IHi IHl]].
   - split.
-    + intros t st rest Hp Hlen. pose proof (printable_tokens_nonempty t Hp). lia.
-    + intros cs st acc count rest _ _ Hlen. lia.
+    + intros t st rest Hp _ Hlen. pose proof (printable_tokens_nonempty t Hp). lia.
+    + intros cs st acc count rest _ _ _ Hlen. lia.
   - split; [apply item_step; exact IHl|apply list_step; assumption].
 Qed.
 
-(* the parser rebuilds every item tree of lists, list variables and integer /
-   unsigned / binary / boolean value items from the tokens of its printed form:
-   the same tree, nothing reported, exactly its tokens consumed, its variables recorded *)
+(* the parser rebuilds every item tree of lists, list variables — named ones and
+   ellipses, the latter numbered as the parser numbers them (`canon`) — and
+   value, ASCII items and ASCII variables from the tokens of its printed form:
+   the same tree, nothing reported, exactly its tokens consumed, its named
+   variables recorded, its ellipses counted *)
 Theorem item_parses_back t st rest :
-  printable t -> (forall n, In n (vars t) -> known_name st n = false) ->
+  printable t -> scans t -> (forall n, In n (vars t) -> known_name st n = false) -> canon (ecount st) (vars t) ->
   toks st = item_tokens t ++ rest ->
   exists st', parse_item floats (S (length (toks st))) st = (Some t, st') /\ toks st' = rest /\
-              errs st' = errs st /\ warns st' = warns st /\ msgs st' = msgs st /\ names_char st st' (vars t).
+              errs st' = errs st /\ warns st' = warns st /\ msgs st' = msgs st /\ names_char st st' (named (vars t)) /\
+              ecount st' = ecount st + Z.of_nat (length (ells (vars t))).
 Proof.
-  intros Hp Hfresh Ht. apply (proj1 (goals (S (length (toks st)))) t st rest Hp); [|exact Hfresh|exact Ht].
+  intros Hp Hsc Hfresh Hcan Ht. apply (proj1 (goals (S (length (toks st)))) t st rest Hp Hsc); [|exact Hfresh|exact Hcan|exact Ht].
   rewrite Ht, app_length. lia.
 Qed.
+
+(* a tree without ellipses is numbered canonically from any counter *)
+Lemma canon_no_ellipsis e ns : ells ns = [] -> canon e ns.
+Proof. unfold canon. intros ->. reflexivity. Qed.
 
 (* premises are satisfiable *)
 Example tree_example :
@@ -269,6 +492,6 @@ Example leaf_example :
   let xs := [SV (-128); SX (B"x"%string); SV 127] in
   Forall (slot_built KInt 1) xs /\ size_ok (size_typ KInt 1) (length xs) = true /\ width_okb KInt 1 = true /\
   forallb (val_okb KInt 1) xs = true /\ names_ok xs = true /\
-  map (fun t => t_val t) (leaf_tokens KInt 1 xs) = [B"<"; B"I1"; B"[3]"; B"-128"; B"x"; B"127"; B">"]%string.
+  map (fun t => t_val t) (leaf_tokens fl KInt 1 xs) = [B"<"; B"I1"; B"[3]"; B"-128"; B"x"; B"127"; B">"]%string.
 Proof. cbn. repeat split; repeat constructor; cbn; lia. Qed.
 End Trees.
